@@ -66,6 +66,8 @@ def run_case(desc):
     d = int(rng.randint(1, 3))
     X = np.round(rng.randn(n, d), 3)
     yt = np.round(rng.randn(n) * 2 + 1, 2)
+    if (desc["seed"] >> 5) % 4 == 0:
+        yt[:] = yt[0]            # all labels identical: the empirical label standard deviation is exactly 0
     lab = np.zeros(n, bool)
     lab[rng.choice(n, size=min(desc["nl"], n), replace=False)] = True
     y = np.where(lab, yt, np.nan)
